@@ -118,7 +118,7 @@ func init() {
 	})
 	register(&PropSpec{
 		ID: "C03",
-		Explanation: "Decided: R-DISCROUTE - where Validate / Serialize choose the member for a struct value by its Go type, the choice is made only with DiscriminatorInlined false or under a branch on what was read out of the value (its discriminator); R-OBJ clause - a default is stored for an unset property only with the property's Disabled flag known false (tested there, or implied by the outcome of the helper that works the value out). Decided: R-JSONNUM - default values are not decoded into an untyped value without UseNumber; R-SUBOBJRULES - the value built for an unset sub-object is stored only where its presence rules hold. Decided: R-SUPPLIEDNONNIL - the producer side of R-UNSETNIL (see C01). Decided: R-UNSETNIL - presence of struct-mapped properties: nil pointer / slice / map and the zero value of a disabled property are unset, unexported fields are refused; R-REBUILT - constructor-only fields are never used without a test for the unfilled case. R-OBJ - the presence-rule evaluator is reached on every accepting path of ObjectSchema Unserialize / Validate / Serialize (map-based and struct-mapped " +
+		Explanation: "Decided: R-EMPTYFLAG - where package schema branches on reflect.Value.IsZero(), what is done on the zero side is done only behind a flag of the property read as true (emptyIsDefault, Disabled) or for a kind that has nil: 0 and \"\" are discriminator values like any other. Decided: R-DISCROUTE - where Validate / Serialize choose the member for a struct value by its Go type, the choice is made only with DiscriminatorInlined false or under a branch on what was read out of the value (its discriminator); R-OBJ clause - a default is stored for an unset property only with the property's Disabled flag known false (tested there, or implied by the outcome of the helper that works the value out). Decided: R-JSONNUM - default values are not decoded into an untyped value without UseNumber; R-SUBOBJRULES - the value built for an unset sub-object is stored only where its presence rules hold. Decided: R-SUPPLIEDNONNIL - the producer side of R-UNSETNIL (see C01). Decided: R-UNSETNIL - presence of struct-mapped properties: nil pointer / slice / map and the zero value of a disabled property are unset, unexported fields are refused; R-REBUILT - constructor-only fields are never used without a test for the unfilled case. R-OBJ - the presence-rule evaluator is reached on every accepting path of ObjectSchema Unserialize / Validate / Serialize (map-based and struct-mapped " +
 			"branches); its set/unset dispatch, and the rejects for required, required_if, required_if_not and conflicts have the declared polarity; undeclared and non-string " +
 			"keys are rejected wherever supplied keys are walked; a value derived from GetDefaults() is stored only under a failed lookup of the same key (a supplied value is " +
 			"never overridden); a disabled property is never unserialized and the object code cannot bypass PropertySchema.Unserialize; the inline shorthand is guarded by " +
@@ -127,6 +127,7 @@ func init() {
 		Rules: []func(*Ctx){
 			func(c *Ctx) { c.ruleJSONNum("R-JSONNUM") },
 			func(c *Ctx) { c.ruleDiscRoute("R-DISCROUTE"); c.R.Floor("R-DISCROUTE", 1) },
+			func(c *Ctx) { c.ruleEmptyFlag("R-EMPTYFLAG"); c.R.Floor("R-EMPTYFLAG", 2) },
 			func(c *Ctx) { c.ruleSubObjRules("R-SUBOBJRULES") },
 			func(c *Ctx) { c.ruleSuppliedNonNil("R-SUPPLIEDNONNIL") },
 			func(c *Ctx) { c.ruleDiscPresent("R-DISCPRESENT"); c.R.Floor("R-DISCPRESENT", 2) },
@@ -141,7 +142,7 @@ func init() {
 	})
 	register(&PropSpec{
 		ID: "C02",
-		Explanation: "Decided: R-F32TEXT - a float32 that is widened to float64 reaches strconv.FormatFloat only with the bit size 32 (the text that the string constraints are checked against is the shortest text of the float32). Decided: R-OVERFLOW - every int64 multiplication / addition on a parsed count in the unit parser is dominated by an overflow pre-check (a unit string that totals 2^63 or more is not accepted as a wrapped-around integer). Decided: R-SERVAL - a Serialize that asks its own Validate constructs no rejection that this Validate does not construct as well. Decided: R-MAPORDER (converted-key clause) - no insertion under a converted key without a duplicate test, so size bounds checked on the source hold for the result. Decided: R-CONVKIND - conversions of values in Validate / Serialize only between agreeing kinds, unsigned values above MaxInt64 excluded; R-FMTPREC - no float becomes a string value through a fixed-precision verb. R-MUSTUSE - every declared constraint (json min, max, pattern, values) is read on every accepting path of Unserialize, Validate, Serialize and the typed " +
+		Explanation: "Decided: R-PARSEERR - every use of the number strconv.ParseFloat / ParseInt / ParseUint / Atoi hands back lies where the error of the same call is known to be nil (or number and error are handed on together): a range error's infinity or largest value never stands for the text. R-SUMALL (see C16) runs here too. Decided: R-F32TEXT - a float32 that is widened to float64 reaches strconv.FormatFloat only with the bit size 32 (the text that the string constraints are checked against is the shortest text of the float32). Decided: R-OVERFLOW - every int64 multiplication / addition on a parsed count in the unit parser is dominated by an overflow pre-check (a unit string that totals 2^63 or more is not accepted as a wrapped-around integer). Decided: R-SERVAL - a Serialize that asks its own Validate constructs no rejection that this Validate does not construct as well. Decided: R-MAPORDER (converted-key clause) - no insertion under a converted key without a duplicate test, so size bounds checked on the source hold for the result. Decided: R-CONVKIND - conversions of values in Validate / Serialize only between agreeing kinds, unsigned values above MaxInt64 excluded; R-FMTPREC - no float becomes a string value through a fixed-precision verb. R-MUSTUSE - every declared constraint (json min, max, pattern, values) is read on every accepting path of Unserialize, Validate, Serialize and the typed " +
 			"variants of every schema type (interprocedural must-analysis over callees on the same receiver); R-BOUNDFORM - each comparison with a bound is the inclusive form " +
 			"(reject iff q < min / q > max), its violating branch returns an error, the measured quantity is the value (numbers) or its length (sized kinds) and all " +
 			"comparisons of one type agree on it; float tests exclude NaN; R-NARROW - lossy conversions to int64 in the input mappers are range- or round-trip-guarded; " +
@@ -149,6 +150,8 @@ func init() {
 			"polarity; R-ERRDROP - no error of a repo call is discarded. R-CHILDREN - as in C01; R-NOCOERCE - no text-parsing conversion (strconv.Parse*, unit parser) is reachable from Validate / Serialize / ValidateType / SerializeType (edges behind a reflect-kind gate that excludes strings are cut; edges into ValidateCompatibility are not followed - assumption). R-CONVKIND - every reflect Convert to a statically known scalar type reachable from Validate / Serialize happens only for source kinds that agree with the target (integer widths among themselves, integer or float to float, otherwise the same kind): established by Kind() comparisons or by a kind predicate of the repo that is evaluated here over all pairs of kinds. NOT decided: that the lenient conversions denote the right number; unit arithmetic (C16).",
 		Rules: []func(*Ctx){
 			func(c *Ctx) { c.ruleF32Text("R-F32TEXT") },
+			func(c *Ctx) { c.ruleParseErr("R-PARSEERR"); c.R.Floor("R-PARSEERR", 5) },
+			func(c *Ctx) { c.ruleSumAll("R-SUMALL"); c.R.Floor("R-SUMALL", 2) },
 			func(c *Ctx) { c.ruleSerVal("R-SERVAL") },
 			func(c *Ctx) { c.ruleOverflow("R-OVERFLOW"); c.R.Floor("R-OVERFLOW", 2) },
 			func(c *Ctx) { c.ruleFmtPrec("R-FMTPREC") },
@@ -167,7 +170,7 @@ func init() {
 	})
 	register(&PropSpec{
 		ID: "C04",
-		Explanation: "Decided: R-STABLEID - no accessor hands out a copy of an object where the original has an address (the walks that bound the recursion tell objects apart by address); R-TERM exception E-DEFAULTGUARD now requires the guard walk to share with Unserialize the function that works out the value of an unset property and the predicate of the single-property shorthand. Decided: R-KINDPRE - every kind-restricted method of reflect.Value (Len, Index, MapKeys, MapIndex, MapRange, SetMapIndex, NumField, Field*, Elem, IsNil, Int, Uint, Float, Bool) is called on a Value whose own kind is known to fit (provenance, a Kind() comparison on every path, the callers, the callee whose result it wraps), 6 exceptions E-OWNTYPE / E-PROBE; R-REFLECT (i) - Set / SetMapIndex with a dynamically typed value only behind AssignableTo, Convert or a recover; R-TERM exception E-DEFAULTGUARD - the values of the schema fed back into Unserialize (defaults, sub-object defaults) are examined by a bounded guard first. NOT decided: Go values that contain themselves (Validate / Serialize recurse with the value). Decided: R-REFLECT (g) - Elem() only of a pointer known not to be nil (through parameters and callers); (h) - Set on a struct field only under CanSet() or a recover scope; R-TERM - the sub-object-defaults descent is bounded by a visited path, the inline-shorthand chain by a guard method (exception E-CHAINGUARD). Decided: R-UNSETNIL (CanInterface clause) and R-REFLECT (e, f) - field access through the field cache does not walk through nil embedded pointers, values of unexported fields are not read, Convert to run-time types needs CanConvert. no reachable unguarded panic site of three classes in the functions reachable from Unserialize/Validate/Serialize/ValidateCompatibility " +
+		Explanation: "R-TERM exception E-DEFAULTGUARD clause (f): a value of the schema is put into the map Unserialize works from only behind the failed comma-ok lookup of that key ('unset' means to the re-seeding code what it means to the guard's walk). Decided: R-STABLEID - no accessor hands out a copy of an object where the original has an address (the walks that bound the recursion tell objects apart by address); R-TERM exception E-DEFAULTGUARD now requires the guard walk to share with Unserialize the function that works out the value of an unset property and the predicate of the single-property shorthand. Decided: R-KINDPRE - every kind-restricted method of reflect.Value (Len, Index, MapKeys, MapIndex, MapRange, SetMapIndex, NumField, Field*, Elem, IsNil, Int, Uint, Float, Bool) is called on a Value whose own kind is known to fit (provenance, a Kind() comparison on every path, the callers, the callee whose result it wraps), 6 exceptions E-OWNTYPE / E-PROBE; R-REFLECT (i) - Set / SetMapIndex with a dynamically typed value only behind AssignableTo, Convert or a recover; R-TERM exception E-DEFAULTGUARD - the values of the schema fed back into Unserialize (defaults, sub-object defaults) are examined by a bounded guard first. NOT decided: Go values that contain themselves (Validate / Serialize recurse with the value). Decided: R-REFLECT (g) - Elem() only of a pointer known not to be nil (through parameters and callers); (h) - Set on a struct field only under CanSet() or a recover scope; R-TERM - the sub-object-defaults descent is bounded by a visited path, the inline-shorthand chain by a guard method (exception E-CHAINGUARD). Decided: R-UNSETNIL (CanInterface clause) and R-REFLECT (e, f) - field access through the field cache does not walk through nil embedded pointers, values of unexported fields are not read, Convert to run-time types needs CanConvert. no reachable unguarded panic site of three classes in the functions reachable from Unserialize/Validate/Serialize/ValidateCompatibility " +
 			"(and typed variants) of all Serializable implementers, outside recover scopes - R-ASSERT: every single-value type assertion is justified by dynamic-type " +
 			"provenance, a validator summary, a TypeID gate, the meta-root argument, or a named structural exception class; R-NILGUARD: every dereference of a field or " +
 			"parameter that the repository itself compares with nil is dominated by a non-nil fact on the same access path (dominator facts + must-dataflow for lazy-init); " +
@@ -396,7 +399,7 @@ func init() {
 	})
 	register(&PropSpec{
 		ID: "C15",
-		Explanation: "Decided: R-MEMOGROWS - nothing is deleted from the set of compared pairs that the compatibility check hands down its recursion, and no callee gets a fresh one (shared objects are compared once, not once per path). Decided: R-STABLEID (see C04); R-OVERLAP also over a helper that is handed the four bounds, with its callers refusing on its answer. Decided: R-REFLEX - no schema-mode rejection whose path condition consists of flags only (bool fields and getters of the two schemas, optional fields set or not) is consistent once the producer is read as the consumer: no such schema is refused as its own producer; R-DISABLED - a producer that declares a property but has it disabled does not supply it, and no accepting return goes round the loop over the consumer's required properties; R-TERM schema mode - the comparison carries the set of object pairs it has entered (visited-pairs discharge). R-MUSTUSE cross-kind clause - a bounded kind accepts a producer of another kind only after a look at its own bounds; R-DISABLED (schema mode) - a disabled property does not accept a producer that requires it. Decided for the schema-mode code of every ValidateCompatibility: R-KINDGATE - every `return nil` is dominated by a gate that separates the receiver's kind " +
+		Explanation: "Decided: R-OFFERALL - every way round the loop that copies the producer's Properties() into the table handed to the comparison stores the entry (the pair rules, disabled on both sides among them, need to see the producer's property). Decided: R-MEMOGROWS - nothing is deleted from the set of compared pairs that the compatibility check hands down its recursion, and no callee gets a fresh one (shared objects are compared once, not once per path). Decided: R-STABLEID (see C04); R-OVERLAP also over a helper that is handed the four bounds, with its callers refusing on its answer. Decided: R-REFLEX - no schema-mode rejection whose path condition consists of flags only (bool fields and getters of the two schemas, optional fields set or not) is consistent once the producer is read as the consumer: no such schema is refused as its own producer; R-DISABLED - a producer that declares a property but has it disabled does not supply it, and no accepting return goes round the loop over the consumer's required properties; R-TERM schema mode - the comparison carries the set of object pairs it has entered (visited-pairs discharge). R-MUSTUSE cross-kind clause - a bounded kind accepts a producer of another kind only after a look at its own bounds; R-DISABLED (schema mode) - a disabled property does not accept a producer that requires it. Decided for the schema-mode code of every ValidateCompatibility: R-KINDGATE - every `return nil` is dominated by a gate that separates the receiver's kind " +
 			"from all others (TypeID comparison, assertion to a concrete schema type, kind whitelist, conversion helper, or a reflective field probe whose embedders all report " +
 			"one TypeID) or lies in data mode; R-OVERLAP - the range comparisons are in normal form (reject iff other.min > self.max or other.max < self.min) and, by " +
 			"enumeration of all acyclic paths from the point where both schemas' bounds are available, every accepting path has decided both bound pairs (nil bound or " +
@@ -407,6 +410,7 @@ func init() {
 		Assumptions: []string{wellFormed},
 		Rules: []func(*Ctx){
 			func(c *Ctx) { c.ruleMemoGrows("R-MEMOGROWS"); c.R.Floor("R-MEMOGROWS", 4) },
+			func(c *Ctx) { c.ruleOfferAll("R-OFFERALL"); c.R.Floor("R-OFFERALL", 1) },
 			func(c *Ctx) { c.ruleStableID("R-STABLEID") },
 			func(c *Ctx) { c.ruleDescend("R-DESCEND"); c.R.Floor("R-DESCEND", 2) },
 			func(c *Ctx) { c.ruleReflex("R-REFLEX") },
@@ -432,7 +436,7 @@ func init() {
 	})
 	register(&PropSpec{
 		ID: "C16",
-		Explanation: "Decided: R-FMTPREC, units clause - a printed float amount carries all its digits (no %f, no fixed precision); R-TRIM accepts the shortest rendering; R-SIBLING sees through the count helper. Decided: R-SIBLING - in each of the four UnitsDefinition.Format* functions the amount handed to the per-unit formatter inside the multiplier loop is the " +
+		Explanation: "Decided: R-PARSEERR - every use of the number strconv.ParseFloat / ParseInt / ParseUint / Atoi hands back lies where the error of the same call is known to be nil (or number and error are handed on together); a helper that decides which errors count is followed through what its outcome implies. Decided: R-FMTPREC, units clause - a printed float amount carries all its digits (no %f, no fixed precision); R-TRIM accepts the shortest rendering; R-SIBLING sees through the count helper. Decided: R-SIBLING - in each of the four UnitsDefinition.Format* functions the amount handed to the per-unit formatter inside the multiplier loop is the " +
 			"math.Floor quotient, never the loop-carried remainder; R-TRIM - digits are trimmed only from renderings known to contain a decimal point, with a cutset that does " +
 			"not also contain the point; R-GRAMMAR - the parser's regexp templates (verbs replaced by quoted-literal placeholders, parsed with regexp/syntax) contain no " +
 			"any-character operator, every named count group needs at least one digit and matches only digits and a literal point, interpolated names are QuoteMeta'd; " +
@@ -446,6 +450,7 @@ func init() {
 			func(c *Ctx) { c.ruleGrammar("R-GRAMMAR"); c.R.Floor("R-GRAMMAR", 2) },
 			func(c *Ctx) { c.ruleOverflow("R-OVERFLOW"); c.R.Floor("R-OVERFLOW", 2) },
 			func(c *Ctx) { c.ruleSumAll("R-SUMALL"); c.R.Floor("R-SUMALL", 2) },
+			func(c *Ctx) { c.ruleParseErr("R-PARSEERR"); c.R.Floor("R-PARSEERR", 5) },
 		},
 	})
 	register(&PropSpec{
